@@ -730,6 +730,15 @@ class LongDescriptor(Suite):
             pad = rng.randint(66000, 140000) if shape.startswith("padded") else 0
             out.append({"shape": shape, "name": name, "extents": exts, "pad": pad, "fsize": start * SECTOR,
                         "salt": rng.randrange(1 << 30), "eol": rng.pick(["\n", "\r\n"])})
+        # a few large extents read with ONE call (40-70 MiB: beyond any per-call cap a reader might think safe)
+        for _ in range(2 if tier == "thorough" else 1):
+            exts, start = [], 0
+            for _ in range(rng.randint(2, 4)):
+                k2 = rng.randint(20000, 36000)
+                exts.append([k2, start])
+                start += k2
+            out.append({"shape": "big-read", "name": "big-flat.vmdk", "extents": exts, "pad": 0, "fsize": start * SECTOR,
+                        "salt": rng.randrange(1 << 30), "eol": "\n"})
         return out
 
     def text(self, case):
